@@ -26,6 +26,10 @@ def wild_spec(draw):
             g['attrs'][str(fs.A_BREAK)] = draw(st.sampled_from([10, 15, 20, 30, -10, -30, 40]))
         elif k == 3:
             g['attrs'][str(fs.A_PSEUDO)] = draw(st.integers(1, n - 1))
+        elif k == 4 and draw(st.integers(0, 2)) == 0:
+            # a glyph the lazy loader cannot read (outline box with xMin > xMax): a lazy face answers every lookup of it with
+            # glyph 0, again and again; a preloading face refuses the font
+            g['bbox'] = [g['bbox'][2] + 10, g['bbox'][1], g['bbox'][0], g['bbox'][3]]
     if draw(st.booleans()):
         spec['pseudos'] = [[draw(st.sampled_from([0x200C, 0x200D, 0x25CC, 0xFFFF, 0x1F600])), draw(st.integers(1, n - 1))]]
     if draw(st.integers(0, 3)) == 0:
